@@ -373,4 +373,70 @@ theorem dom_regexes_pinned :
     CssVerif.Gen.C10.reDOMtoCSS = cps "([A-Z])[a-z]+|(?<![A-Z])[A-Z](?![A-Z])" := by
   decide
 
+/-! ## T10.7 the variables block: `_vars` and `seq` agree -/
+
+/-- under the invariant, and when every key is a fixpoint of `normalize`, the API (`[(k, getVariableValue(k)) for k in
+keys()]`) reports exactly the variables the serialisation lists, with the same values, in the same order; keys are
+distinct -/
+theorem vars_api_eq_serialisation (s : Vars) (h : VInv s) (hk : KeysStable s) :
+    vReported s = vSerialized s ∧ (vKeys s).Nodup := by
+  refine ⟨?_, h.2⟩
+  rw [vSerialized_eq, ← h.1, vReported_direct s h.2 hk]
+
+theorem vars_inv_empty : VInv { vars := [], seq := [] } := ⟨rfl, by simp [dkeys]⟩
+
+/-- `cssText = …` (any accepted text, duplicates and comments included) establishes the invariant -/
+theorem vars_inv_setCssText (s : Vars) (items : List VSrc) (h : VInv s) : VInv (vSetCssText s items).st :=
+  vSetCssText_inv s items h
+
+/-- `removeVariable` keeps it (the delete-while-iterating loop removes the one matching item) and returns the
+reported value -/
+theorem vars_inv_remove (s : Vars) (name : Cps) (h : VInv s) :
+    VInv (vRemove s name).st ∧ (vRemove s name).out = .ok (vGet s name) := vRemove_inv s name h
+
+/- T10.7 for `setVariable`, full statement:  VInv s → VInv (vSet env s name value).st  for every name.
+   FALSE on the current code when `normalize (normalize name) ≠ normalize name` (escaped backslash, `a\\g`):
+   the item list stores the normalised name and every later comparison / the serializer normalises it again
+   (`vars_escaped_backslash_witness`, known finding `C10-escaped-backslash-name`). -/
+
+/-- `setVariable` keeps the invariant for every name whose normal form is a fixpoint of `normalize` -/
+theorem vars_inv_set_partial (env : Env) (s : Vars) (name value : Cps) (h : VInv s)
+    (hst : normalize (normalize name) = normalize name) : VInv (vSet env s name value).st :=
+  vSet_inv env s name value h hst
+
+/-- T10.7 over histories: after any sequence of parse / set / remove / read-only switches (either error mode) the
+invariant holds and the API reports what the serialisation lists — provided the names given to `setVariable` and the
+identifiers of the parsed texts are stable under `normalize` -/
+theorem vars_run_partial (env : Env) (s : Vars) (ops : List (Bool × VOp)) (h : VInv s) (hk : KeysStable s)
+    (hst : ∀ o ∈ ops, VOpStable o.2) :
+    VInv (vrun env s ops) ∧ KeysStable (vrun env s ops) ∧ vReported (vrun env s ops) = vSerialized (vrun env s ops) := by
+  suffices hh : VInv (vrun env s ops) ∧ KeysStable (vrun env s ops) from
+    ⟨hh.1, hh.2, (vars_api_eq_serialisation _ hh.1 hh.2).1⟩
+  induction ops generalizing s with
+  | nil => exact ⟨h, hk⟩
+  | cons o os ih =>
+    simp only [vrun]
+    have ho := hst o (by simp)
+    have hrest : ∀ o' ∈ os, VOpStable o'.2 := fun o' ho' => hst o' (by simp [ho'])
+    cases hop : o.2 with
+    | set n v =>
+      rw [hop] at ho
+      exact ih _ (vSet_inv _ s n v h ho) (vSet_keysStable _ s n v hk ho) hrest
+    | remove n => exact ih _ (vRemove_inv s n h).1 (vRemove_keysStable s n hk) hrest
+    | setText items =>
+      rw [hop] at ho
+      exact ih _ (vSetCssText_inv s items h) (vSetCssText_keysStable s items hk ho) hrest
+    | setReadonly b => exact ih _ h hk hrest
+
+/-- the known finding on the model: `setVariable('a\\g', '1'); setVariable('a\\g', '2')` — the API reports the value
+`2` under the key `a\g`, the serialisation lists `ag: 1` -/
+theorem vars_escaped_backslash_witness :
+    vKeys escVars = [[97, 92, 103]] ∧ escVars.vars = [([97, 92, 103], ⟨[50], [50]⟩)] ∧
+    vSerialized escVars = [([97, 103], [49])] ∧ ¬ VInv escVars := by
+  refine ⟨by decide, by decide, by decide, ?_⟩
+  intro h
+  have := h.1
+  revert this
+  decide
+
 end CssVerif.C10
